@@ -240,6 +240,26 @@ Section Scenarios.
   Proof. split; reflexivity. Qed.
 End Scenarios.
 
+(* histories from the empty builder *)
+Theorem histories_balanced (utxos : list (N * value)) (cfg : config) (l : list (op * tape_state))
+  (rs : list opres) (s : state) (body : tx_body) :
+  utxos_wf utxos -> Forall op_wf (map fst l) ->
+  run_ops utxos l (new_state cfg) = (rs, s, Some body) ->
+  ledger_balanced (c_pool_deposit cfg) (c_key_deposit cfg) body.
+Proof.
+  intros WU Wl H. exact (scenarios_balanced utxos WU cfg l (new_state cfg) rs s body (new_state_wf cfg) Wl H).
+Qed.
+
+Theorem history_change (utxos : list (N * value)) (cfg : config) (x : op) (s : state) (o : tape_state) (v : bool) :
+  utxos_wf utxos -> WF cfg s -> op_wf x ->
+  fst (fst (run_op utxos x s o)) = RBool v ->
+  ledger_balanced (c_pool_deposit cfg) (c_key_deposit cfg) (body_of (snd (fst (run_op utxos x s o)))).
+Proof.
+  intros WU W Wx H.
+  destruct (run_op_spec utxos WU cfg x s o W Wx) as [[_ C] [_ B]].
+  specialize (B v H). apply balanced_ledger in B. unfold params_balanced in B. rewrite C in B. exact B.
+Qed.
+
 (* ------------------------------------------------------------------------------------------- *)
 (* why a mint quantity of -2^64 is excluded from well-formed states: with it, the builder's own balance test passes
    on a state whose body violates the ledger rule (the witness of finding C05-mint-min-int; /repo 0175f0b makes
